@@ -291,6 +291,9 @@ func c14(ctx *Ctx) (*Outcome, error) {
 	for i := 0; i < 18; i++ {
 		cases = append(cases, derivedNameCollisionCase(i))
 	}
+	for i := 0; i < 24; i++ {
+		cases = append(cases, branchFieldCollisionCase(i))
+	}
 	for i := 0; i < 3*nearTwinVariants; i++ {
 		// distinct schemas, distinct types: two contenders for one type name that differ in a single keyword
 		cases = append(cases, nearTwinCase(i))
